@@ -42,6 +42,37 @@ def is_equal_raw_contract(I, inst, st, args):
     return out
 
 
+def is_equal_raw_aliased(I, inst, st, args):
+    """the same contract with both operands inside ONE allocation (overlapping or not)"""
+    n = fresh('n')
+    st.store.add_le(-V(n))
+    out = list(args)
+    rid = I.new_region(st, 'xy')
+    reg = I.regions[rid]
+    for i, name in ((0, 'x'), (1, 'y')):
+        o = fresh(name + '_off')
+        st.store.add_le(-V(o))
+        st.store.add_le(V(o) + V(n) - V(reg.L))
+        out[i] = PtrV(rid, V(o))
+    out[2] = IntV(V(n))
+    return out
+
+
+def aliased_slices(I, inst, st, args):
+    """both slice arguments are views into one allocation (arbitrary offsets and lengths, possibly overlapping)"""
+    rid = I.new_region(st, 'xy')
+    reg = I.regions[rid]
+    out = list(args)
+    for i, a in enumerate(args):
+        if isinstance(a, SliceV):
+            o, n = fresh(f'off{i}'), fresh(f'len{i}')
+            st.store.add_le(-V(o))
+            st.store.add_le(-V(n))
+            st.store.add_le(V(o) + V(n) - V(reg.L))
+            out[i] = SliceV(PtrV(rid, V(o)), V(n), a.esz)
+    return out
+
+
 def rk_raw_contract(I, inst, st, args):
     """rabinkarp `find_raw/rfind_raw(&self, hstart, hend, nstart, nend)`: two ordered pointer pairs,
     each pair within one object"""
@@ -204,6 +235,10 @@ def variants_for(P, inst):
     if sp is not None:
         base = specs.install(sp, base)
         postf = specs.post(sp)
+    if re.match(r'^arch::all::(is_equal_raw|is_equal|is_prefix|is_suffix)$', p):
+        # "wherever the slices are placed in memory": distinct allocations, and views into one allocation
+        al = is_equal_raw_aliased if p.endswith('is_equal_raw') else aliased_slices
+        return [(name + '|distinct', base, postf), (name + '|aliased', al, postf)]
     from . import mm
     if mm.has_domain(inst):
         # documented panic: analysed on both sides of the documented condition
